@@ -13,7 +13,8 @@ def T(module, *names, partial=False):
           "Kanzi.Properties.C03_facts": "Kanzi.C03", "Kanzi.Properties.C18_facts": "Kanzi.C18",
           "Kanzi.Properties.C01": "Kanzi.C01", "Kanzi.Properties.C19_cli": "Kanzi.C19",
           "Kanzi.Properties.C05_jobs": "Kanzi.C05", "Kanzi.Properties.C12_ans0": "Kanzi.C12",
-          "Kanzi.Properties.C01_none": "Kanzi.C01none", "Kanzi.Properties.C03_bound": "Kanzi.C03", "Kanzi.Properties.C19_levels": "Kanzi.C19"}[module]
+          "Kanzi.Properties.C01_none": "Kanzi.C01none", "Kanzi.Properties.C03_bound": "Kanzi.C03", "Kanzi.Properties.C19_levels": "Kanzi.C19",
+          "Kanzi.Properties.ConstsTie": "Kanzi.ConstsTie"}[module]
     return [{"module": module, "name": n if n.startswith("Kanzi.") else ns + "." + n, "partial": partial or n.endswith("_partial")} for n in names]
 
 
@@ -58,6 +59,7 @@ MNONE = "Kanzi.Properties.C01_none"
 MJOBS = "Kanzi.Properties.C05_jobs"
 JOBS_T = ["C05_jobs_partition", "C05_jobs_fewer", "C05_jobs_closed_form", "C05_jobs_errors", "C05_bwt_chunks_covered_gen", "C05_bwt_chunks_covered"]
 
+MCT = "Kanzi.Properties.ConstsTie"
 C07_ALL = ["C07_enc_mutex", "C07_dec_mutex", "C07_enc_ordered", "C07_dec_ordered", "C07_enc_progress", "C07_dec_progress",
            "C07_enc_measure_mono", "C07_dec_measure_mono", "C07_enc_measure_init", "C07_dec_measure_init",
            "C07_enc_cancel_stable", "C07_dec_cancel_stable", "C07_enc_crit_failure_blocks", "C07_dec_crit_failure_blocks",
@@ -70,10 +72,11 @@ PROPS = {}
 PROPS["C01"] = {
     "title": "Lossless round trip through the stream API", "design_ref": "5.1", "level": "proof",
     "technique": "Lean 4 theorems: writer emits chunks(B,data) for every partition/jobs/hint, container frames parse back, reader returns their concatenation for every jobs/hint/read sizes (composition = round trip under H_codec); transform-sequence skip-flag round trip; NONE codec proved; real-code round-trip search over all codecs",
+    "facts": ["Consts"],
     "theorems": T(M01, "C01_roundtrip", "C01_empty_stream") + T(W, "C04_writer_blocks") + T(R, "C05_reader_refines_spec") + T(K, "C10_stream_layout")
                 + T(M13, "C13_sequence", "C13_sequence_mode_byte", "C13_sequence_small") + T(M12, "C12_none")
                 + T(MJOBS, "C05_bwt_chunks_covered", "C05_jobs_partition")
-                + T(MNONE, "C01_codec_NONE", "C01_codec_NONE_task", "C01_codec_NONE_bits", "C01_stream_image_layers", "C01_stream_image_parses", "C01_stream_image_fast", "C01_none_end_to_end"),
+                + T(MNONE, "C01_codec_NONE", "C01_codec_NONE_task", "C01_codec_NONE_bits", "C01_stream_image_layers", "C01_stream_image_parses", "C01_stream_image_fast", "C01_none_end_to_end") + T(MCT, "io_consts", "kanzi_consts", "consts_nonvacuous"),
     "streams": [SW, SR, JOBS, IMAGE, RT, RTBIG],
     "level_text": "PROOF of the stream layer under assumption H_codec, plus search. Proved for all data, all partitions into Write calls, all job counts on both sides, all size-hint values, all read sizes: Write/Close succeed, the blocks are chunks(B,data), the framed stream parses back to them, and the reader returns exactly data then end-of-stream (C01_roundtrip = C04_writer_blocks + C10_stream_layout + C05_reader_refines_spec); the transform sequence with any pattern of declined stages and both skip-flag layouts round-trips (C13_sequence*); NONE entropy proved (C12_none); for the NONE/NONE codec H_codec is PROVED incl. the copy-block branch and the three checksum widths (C01_codec_NONE) and the whole chain is closed at the byte level: the bytes the Writer model emits, for any partition/jobs/hint, parse back through header, framing and block decode to the data (C01_none_end_to_end), and that byte image is byte-identical to the real Writer's output (image stream). ASSUMED (H_codec) for the other transforms/entropy codecs: decode(encode(block)) = block - searched on the real code (rt/rtbig: every transform and entropy, chains up to 8, all data shapes, block sizes, jobs, hints, headerless).",
     "level_note": BASE_NOTE + "H_codec for 17 transforms and 8 entropy codecs is an assumption covered only by the rt/rtbig search; buffer-size sufficiency of the decoder for chained expanding transforms is searched, not proved.",
@@ -83,8 +86,9 @@ PROPS["C01"] = {
 PROPS["C02"] = {
     "title": "Checksummed streams never yield wrong bytes", "design_ref": "5.2", "level": "proof",
     "technique": "Lean 4 theorems on the reader state machine (nothing after an error; every returned byte precedes the failed block) + executable XXHash32/64 and header-CRC models tied differentially; payload-corruption search on real streams",
+    "facts": ["Consts"],
     "theorems": T(R, "C02_nothing_after_error", "C05_error_position") + T(M02H, "C02_hash_total", "C02_hash_stripes", "C02_hash_xxh32_vectors") + T(M10H, "C10_header_crc_detects_single_field")
-                + T(MNONE, "C02_crc_mismatch_detected", "C02_crc_field_checked", "C02_damaged_payload_shape"),
+                + T(MNONE, "C02_crc_mismatch_detected", "C02_crc_field_checked", "C02_damaged_payload_shape") + T(MCT, "hash_consts", "io_crc_seed", "kanzi_consts"),
     "streams": [SR, HASH, IMAGE, CORRUPT],
     "level_text": "PROOF of the mechanism, hash quality out of scope. Proved on the reader model for every stream, job count and read-size sequence: a block whose decode/verification fails is reported by the Read that reaches it, every byte ever returned lies before it, and no later Read returns any byte (C05_error_position, C02_nothing_after_error). For the NONE/NONE block decoder: a payload whose data bytes or checksum field were replaced is rejected with a CRC error whenever the two hashes differ (C02_crc_mismatch_detected, C02_crc_field_checked). The XXHash32/64 functions and the header checksum are modelled bit-exactly (BitVec) and tied to the Go code differentially (hash stream). That a modified payload makes the recomputed hash differ is NOT provable for a 32/64-bit hash (collisions exist): searched - bit flips / substitutions / swaps at payload positions computed by an independent container parser, all entropy codecs, checksum 32/64; results must be error or original; true collisions are recognised and logged.",
     "level_note": BASE_NOTE + "Collision resistance of XXHash is not assumed and not proved; the per-codec decode of corrupted payloads is real code only.",
@@ -94,10 +98,10 @@ PROPS["C02"] = {
 PROPS["C03"] = {
     "title": "Decoder is total: arbitrary input never crashes or hangs the process", "design_ref": "5.3", "level": "proof",
     "technique": "PARTIAL Lean proof: recover discipline decided over a fact base regenerated from /repo on every run + protocol termination theorems for every N; codec internals searched by structure-aware mutation in child processes",
-    "facts": ["GoSites"],
+    "facts": ["GoSites", "Consts"],
     "theorems": T(M03F, "C03_every_panic_site_recovered", "C03_facts_nonvacuous")
                 + T(M07, "C07_dec_progress", "C07_dec_measure_mono", "C07_dec_measure_init", "C07_dec_cancel_stable")
-                + T("Kanzi.Properties.C03_bound", "C03_frame_bound", "C03_frame_bound_linear") + T(MJOBS, "C05_bwt_chunks_covered"),
+                + T("Kanzi.Properties.C03_bound", "C03_frame_bound", "C03_frame_bound_linear") + T(MJOBS, "C05_bwt_chunks_covered") + T(MCT, "io_consts"),
     "streams": [IMAGE, JOBS, FUZZDEC],
     "level_text": "PARTIAL PROOF. Proved: (1) every `go` statement of the library spawns a function with a deferred recover and the caller-goroutine entry points recover (theorem by `decide` over Generated/GoSites.lean, re-extracted from /repo's AST on every run, so a new unrecovered goroutine breaks the proof); (2) the decode hand-off protocol has no deadlock or endless wait for any number of tasks and any failure placement (C07_dec_progress etc.); (3) a task never allocates for or reads a frame longer than a bound that depends on the block size only (C03_frame_bound over the frame parser that the image stream compares with the real Reader on damaged and cut streams). NOT proved: termination and memory safety inside each codec's Inverse/Read on attacker-controlled data; those are only searched (fuzzdec: structure-aware mutations - re-checksummed headers, forged lengths, forged codec headers, splices, truncations - decoded in child processes with a watchdog).",
     "level_note": BASE_NOTE + "The syntactic fact extractor harness/cmd/kv/facts_ast.go (go/parser; one level of callee resolution; self-tested). Codec internals are outside the model.",
@@ -141,7 +145,8 @@ PROPS["C06"] = {
 PROPS["C07"] = {
     "title": "Block hand-off protocol: exclusive, ordered, and always terminating", "design_ref": "5.7", "level": "proof",
     "technique": "Lean 4 invariant proofs for every N and every interleaving over a step-function model of the atomic-counter protocol; hook traces of the real code replayed through the same step functions",
-    "theorems": T(M07, *C07_ALL),
+    "facts": ["Consts"],
+    "theorems": T(M07, *C07_ALL) + T(MCT, "io_consts"),
     "streams": [PROTO],
     "level_text": "PROOF for every number of tasks N and every reachable state (all interleavings, failure at any step): mutual exclusion on the shared stream, blocks appended/taken in id order exactly once, deadlock freedom with a measure bounded by 9N (every weakly fair run terminates), cancel value stable, a failure while holding the token blocks all later tasks, batch result = first failed task. Tie: the real encode/decode tasks run under the build-tag hook with perturbed schedules and injected failures; every recorded atomic action (with the counter value it observed) must be an enabled transition of encStep/decStep and the batch outcome must match; hangs are caught by a watchdog.",
     "level_note": BASE_NOTE + "The protocol model (atomic actions of encode/decode transcribed by hand) is tied by trace replay of hook-instrumented real runs: the hook serialises each atomic op between PRE/POST calls so the recorded order is the real order; Go memory model / sync.WaitGroup semantics are not modelled; 'stop promptly' is formalised as bounded own steps + stable cancel.",
@@ -174,7 +179,8 @@ PROPS["C09"] = {
 PROPS["C10"] = {
     "title": "Streams written by the reference encoder keep decoding (format stability)", "design_ref": "5.10", "level": "proof",
     "technique": "PARTIAL Lean proof: header and frame layout written by hand from the format and proved to round-trip; models tied to the current code differentially; cross-version differential against a vendored pinned reference + archived golden corpus",
-    "theorems": T(M10H, "C10_header_roundtrip", "C10_header_writer_wf", "C10_header_length", "C10_header_crc_detects_single_field") + T(K, "C10_frame_layout", "C10_end_marker", "C10_stream_layout"),
+    "facts": ["Consts"],
+    "theorems": T(M10H, "C10_header_roundtrip", "C10_header_writer_wf", "C10_header_length", "C10_header_crc_detects_single_field") + T(K, "C10_frame_layout", "C10_end_marker", "C10_stream_layout") + T(MCT, "io_consts", "io_crc_seed", "hash_consts", "entropy_type_codes", "transform_consts", "consts_nonvacuous"),
     "streams": [HASH, SR, GOLDEN],
     "level_text": "PARTIAL PROOF + cross-version differential. Proved: the version-6 header layout (constants written by hand from the format) and the frame layout parse back exactly (C10_header_roundtrip, C10_frame_layout, C10_stream_layout); these make the Lean/Go container builders independent encoders whose NONE/NONE streams the current Reader must decode (sr stream), so a symmetric change of header layout, CRC, hash or length coding is detected. NOT modelled: codec bit formats other than NONE: covered by decoding streams produced by the vendored pinned reference (never edited) and an archived golden corpus with SHA-256 of the originals.",
     "level_note": BASE_NOTE + "The vendored reference snapshot ref/kanzi-go-v2 (pinned commit 76efab5) and the golden corpus are trusted as the definition of format 6.",
@@ -194,9 +200,10 @@ PROPS["C11"] = {
 PROPS["C12"] = {
     "title": "Entropy codecs: exact inverse pairs with bit-exact consumption", "design_ref": "5.12", "level": "proof",
     "technique": "PARTIAL Lean proof: varint, alphabet, NONE codec, ANS/Range frequency headers, rANS step incl. reciprocal division proved as inverse pairs with exact consumption on bit strings; whole ANS0 chunks tied differentially; all 9 codecs searched directly on the real code",
+    "facts": ["Consts"],
     "theorems": T(M12, "C12_varint", "C12_alphabet", "C12_none", "C12_freq_header", "C12_freq_header_needs_sum", "C12_freq_header_after_normalize", "C12_ans_reciprocal", "C12_ans_encode_closed_form", "C12_ans_step")
                 + T(M16, "C16_normalize")
-                + T("Kanzi.Properties.C12_ans0", "C12_ans0_single_state", "C12_ans0_interleaved", "C12_ans0_payload_le", "C12_ans0_chunk", "C12_ans0_chunk_sz", "C12_ans0_one_chunk", "C12_ans0_block"),
+                + T("Kanzi.Properties.C12_ans0", "C12_ans0_single_state", "C12_ans0_interleaved", "C12_ans0_payload_le", "C12_ans0_chunk", "C12_ans0_chunk_sz", "C12_ans0_one_chunk", "C12_ans0_block") + T(MCT, "entropy_consts", "consts_nonvacuous"),
     "streams": [ENTSMALL, ENTDIRECT],
     "level_text": "PARTIAL PROOF. Proved in Lean, each as `decode (encode x ++ rest) = (x, rest)` for every trailing bit string (exact consumption): VarInt, alphabet (all three encodings), the NONE codec for every length incl. 0 and > 2^23, the ANS order-0 and Range frequency headers (correct iff the table sums to 2^lr - which C16_normalize guarantees: C12_freq_header_after_normalize), one rANS step incl. the reciprocal-multiply division for every frequency and state. The whole ANS order-0 codec is proved: one state over any symbol list, the 4 interleaved states sharing one word stream, header + chunk, and the complete block Write/Read with per-chunk normalised tables (C12_ans0_block: for all bytes, lr in [8,15], chunk size < 2^26, decode(encode blk ++ rest) = (blk, rest)); the same model is tied differentially (byte-identical output on thousands of blocks). NOT modelled: the encoder's finite output buffer for ANS0, Huffman, Range arithmetic, ANS order 1, FPAQ, CM, TPAQ, TPAQX - searched directly on the real code (entdirect: all 9 codecs, lengths around every chunk boundary, 1..256 symbols, adversarial histograms, misaligned start, trailing sentinel, Read()==Written()).",
     "level_note": BASE_NOTE + "logRange restricted to [8,15] as used by the factory (16 is accepted by the public constructors but unusable: observation in DESIGN.md).",
@@ -206,7 +213,8 @@ PROPS["C12"] = {
 PROPS["C13"] = {
     "title": "Transforms: exact inverse pairs, in bounds, clean decline", "design_ref": "5.13", "level": "proof",
     "technique": "PARTIAL Lean proof: Null, ZRLT, SBRT (all modes) and the transform sequence with skip flags proved as inverse pairs with output bounds; byte-identical differential tie; all 19 transforms searched directly with canaries",
-    "theorems": T(M13, "C13_null", "C13_zrlt", "C13_zrlt_bytes", "C13_zrlt_no_wrap", "C13_sbrt", "C13_sequence", "C13_sequence_plain", "C13_sequence_all_declined", "C13_sequence_mode_byte", "C13_sequence_len", "C13_sequence_small"),
+    "facts": ["Consts"],
+    "theorems": T(M13, "C13_null", "C13_zrlt", "C13_zrlt_bytes", "C13_zrlt_no_wrap", "C13_sbrt", "C13_sequence", "C13_sequence_plain", "C13_sequence_all_declined", "C13_sequence_mode_byte", "C13_sequence_len", "C13_sequence_small") + T(MCT, "transform_consts", "io_consts"),
     "streams": [TRSMALL, TRDIRECT],
     "level_text": "PARTIAL PROOF. Proved for all blocks: Null, ZRLT (output <= MaxEncodedLen, inverse restores), SBRT in every mode; the transform sequence for up to 8 stages and every pattern of declining stages (skip flags in the mode byte or the extra byte recover exactly; all-declined leaves the block; composed MaxEncodedLen bounds the output). Models tied by byte-identical outputs on tens of thousands of blocks. NOT modelled: BWT/BWTS, LZ/LZX/LZP, ROLZ/ROLZX, TEXT, UTF, EXE, MM, PACK/DNA, SRT, RLT - searched directly on the real code (trdirect: every transform and the CLI chains, pipeline buffer sizes with canaries, input-intact checks, data-type hints, all data shapes).",
     "level_note": BASE_NOTE + "'input left unmodified' is immediate in the value-level model and checked on the real buffers by the trdirect oracle.",
@@ -227,9 +235,9 @@ PROPS["C14"] = {
 PROPS["C15"] = {
     "title": "Codec names: case-insensitive, canonical, and consistent end to end", "design_ref": "5.15", "level": "proof",
     "technique": "Lean 4: name/type/variant tables regenerated from the real functions on every run and decided exhaustively; general chain-packing law proved for all token lists; differential correspondence; full Writer/Reader path search over spellings",
-    "facts": ["Names"],
+    "facts": ["Names", "Consts"],
     "theorems": T(M15, "C15_case_tables_exact", "C15_case_insensitive", "C15_tables_inverse", "C15_variant_consistent", "C15_variant_probes_discriminate", "C15_upper_special",
-                  "C15_chain_canonical", "C15_chain_canonical_strong", "C15_chain_fits48", "C15_name_roundtrip", "C15_getType_errors", "C15_entropy_roundtrip"),
+                  "C15_chain_canonical", "C15_chain_canonical_strong", "C15_chain_fits48", "C15_name_roundtrip", "C15_getType_errors", "C15_entropy_roundtrip") + T(MCT, "transform_consts", "entropy_type_codes"),
     "streams": [NAMES, NAMESRT],
     "level_text": "PROOF. Tables (regenerated by calling the real GetType/GetName/constructors for EVERY case variant of every name, then decided in the kernel): every spelling maps to the canonical token, name<->type tables are inverse, every spelling selects the same codec variant as the canonical one at all five variant-selection sites (ROLZX, TPAQX predictor, TEXT hash size x2, fast-entropy check). General: for every list of 1..8 tokens in any spelling GetName(GetType(chain)) is the upper-cased chain with NONE removed (C15_name_roundtrip, C15_chain_canonical for all token lists). Search: the full Writer path - streams for every spelling byte-identical to the canonical spelling and decodable, including headerless readers given differently spelled names.",
     "level_note": BASE_NOTE + "Variant selection is observed through public behaviour on fixed probe blocks (C15_variant_probes_discriminate shows the probes tell the variants apart).",
